@@ -21,6 +21,11 @@ def _run_variant(args):
     try:
         dst = os.path.join(tmp, "repo")
         shutil.copytree(core.REPO, dst, ignore=shutil.ignore_patterns(".git", "__pycache__", ".ruff_cache", ".benchmarks", "*.egg-info", "img", "oneliner_tests"))
+        if files and files[0][0] == "<patch>":
+            r = subprocess.run(["patch", "-p1", "-s", "-i", files[0][1]], cwd=dst, capture_output=True, text=True)
+            if r.returncode != 0:
+                return mid, "stale", "seeded patch no longer applies (the repository changed)"
+            files = []
         for rel, old, new in files:
             p = os.path.join(dst, rel)
             s = open(p).read()
@@ -71,6 +76,27 @@ def run_selftest(prop=None, jobs=16, only=None, quiet=False):
             if only and m["id"] not in only.split(","):
                 continue
             work.append((m["id"] + "@" + p, p, m["files"], [], True))
+    # seeded changes from independent sub-agents (/verif/seeded/<id>): each must be caught by the
+    # check of the property it was written against
+    seeded_dir = os.path.join(core.VERIF, "seeded")
+    if os.path.isdir(seeded_dir):
+        for sid in sorted(os.listdir(seeded_dir)):
+            meta_p = os.path.join(seeded_dir, sid, "meta.json")
+            patch_p = os.path.join(seeded_dir, sid, "patch.diff")
+            if not (os.path.exists(meta_p) and os.path.exists(patch_p)):
+                continue
+            meta = json.load(open(meta_p))
+            if meta.get("kind") == "refactoring":
+                for p in (meta.get("props") or []):
+                    if (not prop or p == prop) and (not only or sid in only.split(",")):
+                        work.append((sid + "@" + p, p, [("<patch>", patch_p, "")], [], True))
+                continue
+            p = meta["property"]
+            if prop and p != prop:
+                continue
+            if only and sid not in only.split(","):
+                continue
+            work.append((sid, p, [("<patch>", patch_p, "")], [""], False))
     if not work:
         print(f"selftest: no variants for {prop or 'all'}")
         return 0
